@@ -9,6 +9,9 @@ namespace occa {
   namespace serial {
     class buffer : public occa::modeBuffer_t {
     public:
+      // ptr was handed in by the user (use_host_pointer) instead of allocated by malloc()
+      bool useHostPointer;
+
       buffer(modeDevice_t *modeDevice_,
              udim_t size_,
              const occa::json &properties_ = occa::json());
